@@ -106,6 +106,16 @@ func svIntrinsic(fr *frame, fn *ssa.Function, args []value) (value, bool) {
 			x.mapOrderMax = 4
 		}
 		return nil, true
+	case "Reencode":
+		// another byte encoding of the same JSON document (natively: insignificant whitespace appended)
+		in, _ := args[0].([]value)
+		b := blobOf(in)
+		if b == nil {
+			panic(abortPath{"sv.Reencode of non-blob bytes"})
+		}
+		nb := fr.i.newBlob(b.t, b.v)
+		blobOf(nb).enc = b.enc + 1
+		return nb, true
 	case "Unreachable":
 		panic(endPath{"harness: " + args[0].(string)})
 	case "Note":
